@@ -175,6 +175,13 @@ type model struct {
 	highest uint64
 	cursor  uint64 // next emission = smallest stored index >= cursor
 	over    bool   // cursor ran past MaxUint64: nothing more can be emitted in this open
+	// set by apply(del) when the bound lies above the highest index ever stored
+	// and at or above the cursor: bound+1, else 0. An item stored later in the
+	// same open at or below that bound is stored and durable, but the property
+	// text does not say whether it is still emitted in this open, i.e. whether
+	// the delete moved the cursor behind its bound: both are followed (see
+	// variants).
+	forkCursor uint64
 }
 
 func (m *model) clone() *model {
@@ -227,6 +234,7 @@ func (m *model) snapshot() snapshot {
 
 // apply runs the operation on the model and returns the events it expects.
 func (m *model) apply(o op) []ev {
+	m.forkCursor = 0
 	switch o.Op {
 	case "open", "reopen":
 		m.cursor, m.over = 0, false
@@ -236,6 +244,11 @@ func (m *model) apply(o op) []ev {
 			m.highest = o.Idx
 		}
 	case "del":
+		// the highest index ever STORED is not touched by a delete, whatever
+		// its bound
+		if o.Idx > m.highest && o.Idx >= m.cursor && o.Idx < math.MaxUint64 && !m.over {
+			m.forkCursor = o.Idx + 1
+		}
 		for k := range m.items {
 			if k <= o.Idx {
 				delete(m.items, k)
@@ -258,6 +271,22 @@ func (m *model) apply(o op) []ev {
 		return out
 	}
 	return nil
+}
+
+// variants returns the model states that may follow the operation just applied
+// to m: m itself and, after a delete-range with a bound above the highest index
+// ever stored, the state in which the cursor of this open lies behind that
+// bound (items stored later at or below the bound are stored, survive, and are
+// emitted in the next open). The states differ only in the cursor and merge at
+// the next open.
+func variants(m *model) []*model {
+	if m.forkCursor == 0 {
+		return []*model{m}
+	}
+	n := m.clone()
+	n.cursor = m.forkCursor
+	m.forkCursor = 0
+	return []*model{m, n}
 }
 
 // explain compares an answer with what the model (already advanced by the op)
@@ -421,6 +450,9 @@ func (r *runner) runSequence(seq, nops, kills int) {
 	sc := seqCase{Seq: seq, Kills: kills}
 	cands := []*model{{items: map[uint64]string{}}}
 	var stats struct{ accepted, ignored, deleted, emitted, reopens, kills int }
+	// an acknowledged delete-range bound lies above the highest stored index
+	// and nothing has been stored since
+	pendingAhead := false
 
 	// seeded kill positions: op number -> mode (1 = after the answer, 2 = in flight)
 	killAt := map[int]int{}
@@ -441,7 +473,7 @@ func (r *runner) runSequence(seq, nops, kills int) {
 	violation := func(key, what string) {
 		c.Eval(1)
 		if len(cands) > 1 {
-			what += fmt.Sprintf(" [%d model states alive after kill]", len(cands))
+			what += fmt.Sprintf(" [%d model states alive]", len(cands))
 		}
 		c.Violation(key, fmt.Sprintf("%s; sequence %d: %s", what, seq, strings.Join(tail(sc.Ops, 14), " ")), sc)
 		r.stop()
@@ -453,18 +485,20 @@ func (r *runner) runSequence(seq, nops, kills int) {
 		seen := map[string]bool{}
 		for _, m := range pre {
 			want := m.apply(o)
-			key, what := explain(m, o, want, a)
-			if key == "" {
-				if s := m.sig(); !seen[s] {
-					seen[s] = true
-					keep = append(keep, m)
+			for _, v := range variants(m) {
+				key, what := explain(v, o, want, a)
+				if key == "" {
+					if s := v.sig(); !seen[s] {
+						seen[s] = true
+						keep = append(keep, v)
+					}
+				} else if k1 == "" {
+					k1, w1 = key, what
 				}
-			} else if k1 == "" {
-				k1, w1 = key, what
 			}
 		}
 		if len(keep) == 0 {
-			if len(pre) > 1 || stats.kills > 0 {
+			if stats.kills > 0 {
 				k1 += ":after-kill"
 			}
 			violation(k1, w1)
@@ -511,6 +545,13 @@ func (r *runner) runSequence(seq, nops, kills int) {
 		}
 		return h
 	}
+	maxHighest := func() uint64 {
+		h := cands[0].highest
+		for _, m := range cands {
+			h = max(h, m.highest)
+		}
+		return h
+	}
 	genOp := func(i int) op {
 		m := cands[0]
 		switch k := rng.IntN(100); {
@@ -541,11 +582,18 @@ func (r *runner) runSequence(seq, nops, kills int) {
 			}
 			return op{Op: "enq", Idx: idx, Data: hex.EncodeToString(d)}
 		case k < 58:
-			// never beyond the highest index stored (see assumptions)
 			h := minHighest()
 			var idx uint64
 			ks := m.keys()
-			switch d := rng.IntN(6); {
+			d := rng.IntN(8)
+			if d >= 6 {
+				// a bound AHEAD of the highest index ever stored (in every
+				// state still alive): a consumer told a high watermark it has
+				// not reached itself. Close enough that later enqueues
+				// (window +1..+3) land at or below the bound.
+				return op{Op: "del", Idx: maxHighest() + 1 + uint64(rng.IntN(6))}
+			}
+			switch {
 			case d < 3 && len(ks) > 0:
 				idx = ks[rng.IntN(len(ks))]
 				if rng.IntN(4) == 0 && idx > 0 {
@@ -577,18 +625,30 @@ func (r *runner) runSequence(seq, nops, kills int) {
 		}
 		accepts := o.Op == "enq" && o.Idx > cands[0].highest
 		lenBefore := len(cands[0].items)
+		aheadDel := o.Op == "del" && o.Idx > cands[0].highest
 		track := func() {
 			switch o.Op {
 			case "enq":
 				if accepts {
 					stats.accepted++
+					pendingAhead = false
+					if cands[0].cursor > o.Idx {
+						c.Count("enqueues_stored_at_or_below_earlier_ahead_delete_bound_not_emitted_in_same_open", 1)
+					}
 				} else {
 					stats.ignored++
 				}
 			case "del":
 				stats.deleted += lenBefore - len(cands[0].items)
+				if aheadDel {
+					pendingAhead = true
+					c.Count("delete_range_ahead_of_highest_stored", 1)
+				}
 			case "reopen":
 				stats.reopens++
+				if pendingAhead {
+					c.Count("restarts_while_last_delete_bound_above_highest_stored", 1)
+				}
 			}
 		}
 		if mode != 2 {
@@ -623,6 +683,9 @@ func (r *runner) runSequence(seq, nops, kills int) {
 				stats.kills++
 				c.Count("kills_between_operations", 1)
 				journal("KILL")
+				if pendingAhead {
+					c.Count("restarts_while_last_delete_bound_above_highest_stored", 1)
+				}
 				if !openFresh(false) {
 					return
 				}
@@ -681,6 +744,9 @@ func (r *runner) runSequence(seq, nops, kills int) {
 			cands = forked
 		}
 		before := len(cands)
+		if pendingAhead {
+			c.Count("restarts_while_last_delete_bound_above_highest_stored", 1)
+		}
 		if !openFresh(false) {
 			return
 		}
@@ -796,9 +862,10 @@ func probes(c *vf.Ctx, tmp string) {
 }
 
 func run(c *vf.Ctx) {
-	c.Rule("seeded operation sequences on the real cdc.Queue in a child process: enqueue (index from a window of -4..+3 around the highest stored index, occasionally far ahead or anywhere below; payload 0..200 bytes, different for every attempt so an ignored re-enqueue cannot hide), delete-range (at stored keys, key-1, the cursor, the highest), receive 0..50 events, query (Len/FirstKey/HighestKey/Empty/HasNext, also returned after every operation), close+reopen in process; kill sequences add 1..3 SIGKILLs at seeded operation numbers, two thirds of them a seeded fraction (0..1.3) of the measured write latency after the operation was sent, followed by a fresh child on the same file; every sequence ends with reopen + full drain. non-trivial = sequence with an accepted and an ignored enqueue, a delete that removed items, emitted events and a reopen or kill; distinct by the journal")
-	c.Assume("sequential model written from the property text: sorted map, highest index ever stored (persisted), per-open cursor; an acknowledged operation is applied, the one operation in flight at a kill is applied or not (both states are followed)")
-	c.Assume("indexes are in 1..2^64-2 (0 is what HighestKey/FirstKey return for 'none'; Raft indexes never get near 2^64) and DeleteRange is never called with a bound above the highest stored index; what the queue does outside these bounds is recorded under coverage.observation_* and not judged")
+	c.Rule("seeded operation sequences on the real cdc.Queue in a child process: enqueue (index from a window of -4..+3 around the highest stored index, occasionally far ahead or anywhere below; payload 0..200 bytes, different for every attempt so an ignored re-enqueue cannot hide), delete-range (three quarters at stored keys, key-1, the cursor, the highest or anywhere below; one quarter with a bound 1..6 AHEAD of the highest index ever stored, so that later enqueues land at or below an earlier delete bound and restarts happen while the last delete bound is above everything stored), receive 0..50 events, query (Len/FirstKey/HighestKey/Empty/HasNext, also returned after every operation), close+reopen in process; kill sequences add 1..3 SIGKILLs at seeded operation numbers, two thirds of them a seeded fraction (0..1.3) of the measured write latency after the operation was sent, followed by a fresh child on the same file; every sequence ends with reopen + full drain. non-trivial = sequence with an accepted and an ignored enqueue, a delete that removed items, emitted events and a reopen or kill; distinct by the journal")
+	c.Assume("sequential model written from the property text: sorted map, highest index ever stored (persisted; moved only by a stored enqueue, never by a delete-range whatever its bound), per-open cursor; an acknowledged operation is applied, the one operation in flight at a kill is applied or not (both states are followed)")
+	c.Assume("indexes are in 1..2^64-2 (0 is what HighestKey/FirstKey return for 'none'; Raft indexes never get near 2^64); what the queue does outside these bounds is recorded under coverage.observation_* and not judged")
+	c.Assume("an item stored at or below the bound of an earlier delete-range of the same open (possible only when that bound was ahead of the highest stored index) must be stored, counted, durable and emitted after the next open; whether it is still emitted in the same open is not decided by the property text: after every delete-range with a bound above the highest stored index the model follows both states (cursor unchanged / cursor behind the bound) and later HasNext()/receive answers select one")
 	c.Assume("SIGKILL of the process (no power loss): data handed to the kernel survives")
 
 	tmp := vf.TempDir("c26")
